@@ -277,6 +277,26 @@ def elongation (date : Date) : α :=
   let elong := elong + 0.66 * sin (2.0 * d)
   pymod elong 360.0
 
+/-- the same series when the "date" is a datetime: `julianday` then includes the time of day
+    (moon.py passes whatever it was given to `julianday`) -/
+def elongationWall (w : Int) : α :=
+  let jd : α := julianDayWall w
+  let dt : α := powi (jd - 2382148.0) 2 / (ofInt (41048480 * 86400))
+  let t : α := (jd + dt - 2451545.0) / 36525.0
+  let t2 := powi t 2
+  let t3 := powi t 3
+  let d : α := 297.85 + (445267.1115 * t) - (0.0016300 * t2) + (t3 / 545868.0)
+  let d := radians (pymod d 360.0)
+  let m : α := 357.53 + (35999.0503 * t)
+  let m := radians (pymod m 360.0)
+  let m1 : α := 134.96 + (477198.8676 * t) + (0.0089970 * t2) + (t3 / 69699.0)
+  let m1 := radians (pymod m1 360.0)
+  let elong : α := degrees d + 6.29 * sin m1
+  let elong := elong - 2.10 * sin m
+  let elong := elong + 1.27 * sin (2.0 * d - m1)
+  let elong := elong + 0.66 * sin (2.0 * d)
+  pymod elong 360.0
+
 /-- moon.py:573: integer elongation → 28ths, with the fixed +6.43° offset -/
 def phaseOfElong (ei : Int) : α := (((ofInt ei : α) + 6.43) / 360.0) * 28.0
 
@@ -286,6 +306,11 @@ def phaseAsFloat (date : Date) : α := phaseOfElong (trunc (elongation (α := α
 /-- moon.py:577-601 -/
 def phase (date : Date) : α :=
   let moon : α := phaseAsFloat date
+  if 28.0 ≤ moon then moon - 28.0 else moon
+
+/-- `phase(datetime)` -/
+def phaseWall (w : Int) : α :=
+  let moon : α := phaseOfElong (trunc (elongationWall (α := α) w))
   if 28.0 ≤ moon then moon - 28.0 else moon
 
 end
